@@ -347,7 +347,8 @@ def ops_check(a, c):
             return 'bad: operands were copied or rewritten'
         if (a ** 3).n != 3 or type((a ** 2.0).n) is not int:
             return 'bad: exponent stored as %r' % ((a ** 2.0).n,)
-        for z in (None, 1, 2.5, 'x', (1,), [a]):
+        import fractions as _fr
+        for z in (None, 1, 2.5, 'x', (1,), [a], 0, 0.0, -0.0, False, True, 1.0, '', (), [], {}, 0j, _fr.Fraction(0), _fr.Fraction(1)):
             for f in (lambda u, w: u + w, lambda u, w: u - w, lambda u, w: u * w, lambda u, w: u / w):
                 for u, w in ((a, z), (z, a)):
                     try:
@@ -358,6 +359,13 @@ def ops_check(a, c):
             try:
                 r_ = z ** a
                 return 'bad: %r ** expression accepted' % (z,)
+            except Exception:  # noqa: BLE001
+                pass
+        for f, what in ((lambda: sum([a, c]), 'sum([a, b])'), (lambda: sum([a]), 'sum([a])'),
+                        (lambda: math.prod([a, c]), 'math.prod([a, b])')):
+            try:
+                r_ = f()
+                return 'bad: %s coerced its start value and returned %r' % (what, r_)
             except Exception:  # noqa: BLE001
                 pass
     except Exception as ex:  # noqa: BLE001
@@ -668,6 +676,53 @@ def run_line(line):
         except (DomainError, CoordinateMissing):
             return 'SKIP'
         return repr_tokens(repr(ld))
+    if cmd == 'OBJEQ':
+        # the last sentence of C06: Differential(e).component(v) == Partial(e, v) and
+        # Differential(e).at(p) == LocatedDifferential(e, p), early or late, both ways round, with equal hashes
+        v = int(ts[1])
+        p, k = sx.parse_point(ts, 2)
+        e, _ = sx.parse_expr(ts, k)
+        o = build(e)
+        name = sx.name_of(v)
+        out = []
+
+        def same(a, b_):
+            r1, r2 = (a == b_), (b_ == a)
+            if not isinstance(r1, bool) or not isinstance(r2, bool):
+                return 'notbool'
+            return 'true' if (r1 and r2 and hash(a) == hash(b_)) else 'false'
+
+        def guarded(thunk):
+            try:
+                return ('OBJ', thunk())
+            except DomainError:
+                return ('DOMERR', None)
+            except CoordinateMissing:
+                return ('COORD', None)
+            except RecursionError:
+                return ('RECURSION', None)
+            except Exception as ex:  # noqa: BLE001
+                return ('PYERR:' + type(ex).__name__, None)
+
+        loc = guarded(lambda: LocatedDifferential(o, mkpoint(p)))
+        for early in (False, True):
+            d = guarded(lambda: Differential(o, compute_early=early))
+            if d[0] != 'OBJ':
+                out.append('diff%d=%s' % (early, d[0]))
+                continue
+            for early2 in (False, True):
+                q = guarded(lambda: Partial(o, name, compute_early=early2))
+                c = guarded(lambda: d[1].component(name))
+                if q[0] == 'OBJ' and c[0] == 'OBJ':
+                    out.append('comp%d%d=%s' % (early, early2, same(c[1], q[1])))
+                else:
+                    out.append('comp%d%d=%s/%s' % (early, early2, c[0], q[0]))
+            a = guarded(lambda: d[1].at(mkpoint(p)))
+            if a[0] == 'OBJ' and loc[0] == 'OBJ':
+                out.append('at%d=%s' % (early, same(a[1], loc[1])))
+            else:
+                out.append('at%d=%s/%s' % (early, a[0], loc[0]))
+        return 'OBJEQ ' + ' '.join(out)
     if cmd == 'RTOBJ':
         # eval(repr(obj)) == obj for the object that the SHOW* command in the rest of the line prints
         sub = ts[1]
